@@ -608,6 +608,14 @@ def spooled_ok(f):
     return is_file_at(f._file, f._path) and positioned_at_end(f._file)
 
 
+def nothing_buffered(fileobj):
+    """everything written through the file object has reached the file (ghost; not observable natively)"""
+    return True
+
+
+M.model(nothing_buffered, lambda interp, args, kwargs: textio.nothing_buffered(interp, _res(interp, args[0])))
+
+
 def _at_end(f):
     return spooled_position(f) == len(spooled_written(f))
 
@@ -675,6 +683,8 @@ def _havoc_spooled(interp, f, tag, to_disk=False):
         textio.set_stored(interp, p, t)
         f._path = p
         f._file = _new_disk_file(interp, tag + '._file', p)
+        # (clause 'rolled over from memory: nothing is left in the buffer of the new file object' of _rollover)
+        f._file._pv_ghost['dirty'] = False
         any_pos(f._file, t)
 
 
@@ -698,6 +708,9 @@ M.contract(_P_STF + '._rollover', params=dict(self=Union(SPOOLED_MEM_ANY, SPOOLE
                'positioned at the character the buffer was positioned at (after sequential writing: the end)':
                    lambda self, old: spooled_position(self) == old[3],
                'size unchanged': lambda self, old: self._max_size == old[2],
+               # (T14) the final seek flushes: a child process that is given the file next writes AFTER the text
+               'rolled over from memory: nothing is left in the buffer of the new file object':
+                   lambda self, old: old[1] is not None or nothing_buffered(self._file),
            },
            replay=lambda model, rf: replays_c14.source('rollover_position'),
            raises_only=())
